@@ -280,8 +280,9 @@ def _types(repo, col):
     if r is not None and r.op == "tuple":
         ti = r.args[0]
         # len(names) if new else names.index(name)
-        ok = ti.op == "ifexp" and T.find(ti.args[1], lambda x: x.op == "call" and x.name == "len") is not None and \
-            T.find(ti.args[2], lambda x: x.op == "mcall" and x.name == "index") is not None and \
+        # the branches must BE len(names) / names.index(name), not merely contain them (len(names) - 1 is wrong)
+        ok = ti.op == "ifexp" and ti.args[1].op == "call" and ti.args[1].name == "len" and \
+            ti.args[2].op == "mcall" and ti.args[2].name == "index" and \
             all(T.find(b, lambda x: x.op == "attr" and x.name == "synapse_names") is not None for b in ti.args[1:])
     col.check(ok, R, fi, "type index of a new synapse type = current number of types, else its position",
               "len(names) if new else names.index(name)", f"returns {r.short(120) if r else None}", node=fi.node)
